@@ -31,6 +31,7 @@ def run(ctx, sess):
     ctx.rule('C12.4', 'the time-series chunks of the UTC track: INDEX immediately followed by its SUMMARY, nothing indexed dropped at commit, seek lands on the first of equal ids, upper index levels keyed by the index below (shared with C05.6, C11.8, C11.9, C11.12)')
     ctx.rule('C12.5', 'the map answers only when complete and safe: attached after a successful load (shared with C04.9); a successful realloc installed, bisection inside the arrays, slope divisor compared with zero (shared with C10.19, C10.20, C10.25)')
     ctx.rule('C12.7', 'the map never stores past its arrays: every store at [entries_length] lies behind a compare of entries_length with entries_alloc, or every caller reserves first through a helper whose growth was evaluated (finite-domain trace: capacity >= requested count on return) for the requests that caller can make')
+    ctx.rule('C12.8', 'the map is loaded from every stored pair: the sample id at which a loader of the id<->time map (a caller of the UTC iteration whose callback adds to a map) starts the iteration is a constant below every id that can be stored (<= -2^61) - a start that depends on the signal (one hour of samples before the first one) leaves earlier pairs out of the map although jls_rd_utc returns them, and the conversion then extrapolates instead of reproducing them')
     ctx.rule('C12.6', 'a callback that asks to stop ends the UTC iteration, and every delivery hands over the buffer just read')
 
     w = P.fn('jls_wr_utc')
@@ -165,6 +166,7 @@ def run(ctx, sess):
           only_functions=('jls_tmap_add', 'interp_i64', 'jls_tmap_sample_id_to_timestamp', 'jls_tmap_timestamp_to_sample_id'), minimum=4)
 
     map_append_rule(ctx, P, 'C12.7')
+    map_load_start_rule(ctx, P, 'C12.8')
 
     # ---- C12.6
     cbs = [ev for ev in r.events('call') if ev.callee is None]
@@ -281,3 +283,39 @@ def map_append_rule(ctx, P, rule):
             ctx.ob(rule, bad is None, fn.name, 'append %s' % show(l0)[:40], ev.where(),
                    'every caller tests or reserves the capacity first' if bad is None else bad + ': entries are stored past the arrays when a chunk brings more entries than the capacity that is left')
     ctx.floor('appends to the map arrays', n, 2)
+
+
+def map_load_start_rule(ctx, P, rule):
+    from ..fd import FD, Top
+    fd = FD(P)
+    n = 0
+    for fn in P.functions.values():
+        for c in fn.calls('jls_core_utc'):
+            if len(c.args) < 5:
+                continue
+            cb = strip_casts(c.args[3])
+            if not (cb.get('op') == 'ref' and 'tmap' in (cb.get('name') or '')):
+                continue
+            n += 1
+            ctx.saw(fn, 1)
+            a = strip_casts(c.args[2])
+            val = None
+            try:
+                val = fd.ev(fn, a, {})
+            except (Top, ZeroDivisionError):
+                # a local with a single constant definition
+                if a.get('op') == 'ref' and a.get('rk') == 'local':
+                    defs = [ev for ev in fn.events() if (ev.k == 'decl' and ev.name == a['name'] and ev.e is not None)] + \
+                           [ev for ev in fn.stores() if strip_casts(ev.store_parts()[0]).get('name') == a['name']]
+                    defs = list({id(d_): d_ for d_ in defs}.values())
+                    if len(defs) == 1 and defs[0].k == 'decl':
+                        try:
+                            val = fd.ev(fn, defs[0].e, {})
+                        except (Top, ZeroDivisionError):
+                            val = None
+            ok = val is not None and val <= -(1 << 61)
+            ctx.ob(rule, ok, fn.name, 'start of the UTC iteration that fills the map', c.where(),
+                   'constant %d: below every sample id' % val if ok else
+                   ('the iteration starts at %s: pairs stored before that id are returned by jls_rd_utc but never reach the map, so converting their sample id extrapolates from a later segment instead of reproducing the stored time' %
+                    (('the constant %d' % val) if val is not None else 'a value that depends on the signal (%s)' % show(a))))
+    ctx.floor('map loaders', n, 1)
